@@ -507,7 +507,7 @@ pub fn systematic_c09(backend: &str, seed: u64, tier: &str) -> Vec<Scenario> {
                 let base = sys_base("C09", world, backend, ty, s);
                 let o = crate::batch::run_scenario(&base, false);
                 let (wc, rc, fc) = o.calls;
-                let kinds: [u32; 4] = [0, 1, 4, 8]; // Interrupted, WouldBlock, ConnectionReset, Other
+                let kinds: [u32; 7] = [0, 1, 2, 4, 6, 8, 10]; // Interrupted, WouldBlock, TimedOut, ConnectionReset, WriteZero, Other, UnexpectedEof
                 for idx in 0..wc.min(80) {
                     let mut whats: Vec<(u32, bool)> = vec![(0, false)];
                     for k in kinds {
